@@ -67,7 +67,7 @@ Inductive ev :=
 | EvExit (n : Z).                            (* exit expr evaluated *)
 
 Inductive oev :=
-| OTrace (tag : Z) (nr fnr : Z) (fname line : bytes) (nf ret : Z) (vals : list bytes)
+| OTrace (tag : Z) (nr fnr : Z) (fname line : bytes) (nf ret : Z) (vals : list bytes) (flds : list bytes)
 | OPrint (line : bytes).
 
 (* ---------- state of the input subsystem ---------- *)
@@ -117,7 +117,9 @@ Record env := mkEnv {
   fs : list (bytes * list record);    (* readable files: name -> records; absent = cannot be opened *)
   cmds : list (bytes * list record);  (* command line -> records of its output *)
   globals : list bytes;               (* names of the program's global scalars (p.scalarIndexes) *)
-  noargvars : bool                    (* Config.NoArgVars *)
+  noargvars : bool;                   (* Config.NoArgVars *)
+  imode : option Z                    (* input mode: None = default (FS " "); Some sep = CSV (44) / TSV (9), set by
+                                         Config.InputMode or by INPUTMODE before the first read *)
 }.
 
 (* ---------- byte-level helpers ---------- *)
@@ -257,7 +259,21 @@ Definition set_file (name : bytes) (s : st) : st :=
   add_log (EvSetFile name) (set_had true (set_FNR 0 (set_FILENAME name s))).
 
 (* setLine: fields are split lazily in Go, with the FS saved here; FS is fixed (" ") in this model *)
-Definition set_line (l : bytes) (s : st) : st := set_linefields l (split_ws l) s.
+(* CSV/TSV mode, records without quotes: csvSplitter yields the line as record and the pieces between
+   separators as fields (no field at all for an empty line, which ensureFields gets when $0 is set to "") *)
+Fixpoint split_sep_go (sep : Z) (s : bytes) (w : bytes) (acc : list bytes) : list bytes :=
+  match s with
+  | [] => rev (rev w :: acc)
+  | c :: s' => if c =? sep then split_sep_go sep s' [] (rev w :: acc) else split_sep_go sep s' (c :: w) acc
+  end.
+Definition split_sep (sep : Z) (s : bytes) : list bytes :=
+  match s with [] => [] | _ => split_sep_go sep s [] [] end.
+
+(* the fields of a record in the input mode of the run *)
+Definition split_mode (e : env) (l : bytes) : list bytes :=
+  match imode e with None => split_ws l | Some sep => split_sep sep l end.
+
+Definition set_line (e : env) (l : bytes) (s : st) : st := set_linefields l (split_mode e l) s.
 
 (* ---------- interp.go setVarByName (called for var=value operands) ---------- *)
 
@@ -361,8 +377,8 @@ Fixpoint replace_nth (n : nat) (v : bytes) (l : list bytes) : list bytes :=
   end.
 
 (* None = not modelled (negative index) *)
-Definition set_field (n : Z) (v : bytes) (s : st) : option st :=
-  if n =? 0 then Some (set_line v s)
+Definition set_field (e : env) (n : Z) (v : bytes) (s : st) : option st :=
+  if n =? 0 then Some (set_line e v s)
   else if n <? 0 then None
   else
     let k := Z.to_nat n in
@@ -429,9 +445,9 @@ Definition do_getline (e : env) (sr : src) (tg : tgt) (s : st) : option st :=
     let s2 := set_ret r s1 in
     if r =? 1 then
       match tg with
-      | TLine => Some (set_line l s2)
+      | TLine => Some (set_line e l s2)
       | TVar v => Some (add_log (EvGetVar v l) (set_vars (bupdate (vars s2) v l) s2))
-      | TField n => set_field n l s2
+      | TField n => set_field e n l s2
       end
     else Some s2
   end.
@@ -464,14 +480,14 @@ Definition prim (e : env) (r : req) (s : st) : option st :=
   | RGetline sr tg => do_getline e sr tg s
   | RClose name => Some (set_rd (bremove (rd s) name) s)
   | RTrace tag names =>
-      Some (add_out (OTrace tag (NR s) (FNR s) (FILENAME s) (line s) (zlen (fields s)) (ret s) (map (var_get s) names)) s)
+      Some (add_out (OTrace tag (NR s) (FNR s) (FILENAME s) (line s) (zlen (fields s)) (ret s) (map (var_get s) names) (fields s)) s)
   | RSetNR z => Some (add_log (EvSetNR z) (set_NR z s))
   | RSetFNR z => Some (add_log (EvSetFNR z) (set_FNR z s))
   | RSetArgc z => Some (set_argc z s)
   | RSetArgv i v => Some (set_argv (zupdate (argv s) i v) s)
   | RDelArgv i => Some (set_argv (zremove (argv s) i) s)
   | RSetVar name val => Some (add_log (EvSetVar name val) (set_vars (bupdate (vars s) name val) s))
-  | RSetLine l => Some (set_line l s)
+  | RSetLine l => Some (set_line e l s)
   end.
 
 (* ---------- the program as a machine; executeAll ---------- *)
@@ -592,7 +608,7 @@ Section Machine.
       | (NLEof, s1) => LCont u s1 flags
       | (NLErr, s1) => LStop OErr u s1
       | (NLRec r, s1) =>
-          match exec_rules fuel rules 0 [] flags u (set_line r s1) with
+          match exec_rules fuel rules 0 [] flags u (set_line e r s1) with
           | LCont u' s' flags' => main_loop fuel n' rules flags' u' s'
           | x => x
           end
